@@ -15,7 +15,9 @@ for d in sorted(glob.glob(os.path.join(VERIF, "seeded", "C*_[AB]"))):
     rc = re.search(r"^rc=(\d+)", txt, re.M)
     demo = re.search(r"demo_exit=(\d+)", txt)
     viol = re.search(r"^VIOLATION .*obligation=(\S+)(.*)$", txt, re.M)
-    if "no check for" in txt:
+    if sid in NOTES.get("__moot__", {}):
+        out, key = NOTES["__moot__"][sid], "moot"
+    elif "no check for" in txt:
         out, key = "no check (property not applicable)", "n/a"
     elif "does not apply" in txt:
         out, key = "patch no longer applies to the repaired tree", "moot"
